@@ -8,7 +8,10 @@
 //! The f64 VALUE of a number token that is not a u64/i64 integer literal is a parameter of the
 //! model (serde_json's float reader is not correctly rounded): the harness reads each such token
 //! with serde_json and passes m·2^e along. Outside the model, skipped and counted: inputs that are
-//! not valid UTF-8, `\uD800`–`\uDFFF` escapes (surrogate pairs), the token `-0`.
+//! not valid UTF-8, `\uD800`–`\uDFFF` escapes (surrogate pairs), the token `-0`, and number
+//! literals beyond the f64 range (`11e400`): serde_json rejects one only where it EVALUATES it – the
+//! typed reader skips the members it ignores without evaluating their numbers, `Value` does not –
+//! and the model has no value to be given for it.
 use crate::json::{self, J};
 use crate::{impl_gz, Ctx};
 use corrlib::*;
@@ -68,7 +71,8 @@ fn dump(v: &Value, out: &mut String) {
 }
 
 /// the number tokens outside strings (maximal runs of `0-9 - + . e E`) that serde_json reads as f64
-fn float_oracle(bytes: &[u8]) -> (Vec<String>, bool) {
+fn float_oracle(bytes: &[u8]) -> (Vec<String>, bool, bool) {
+    let mut out_of_range = false;
     let mut args = vec![];
     let mut seen: Vec<Vec<u8>> = vec![];
     let mut minus_zero = false;
@@ -92,7 +96,13 @@ fn float_oracle(bytes: &[u8]) -> (Vec<String>, bool) {
                 }
                 if !seen.iter().any(|t| t == tok) {
                     seen.push(tok.to_vec());
-                    if let Ok(Value::Number(n)) = serde_json::from_slice::<Value>(tok) {
+                    let parsed = serde_json::from_slice::<Value>(tok);
+                    if let Err(e) = &parsed {
+                        if e.to_string().contains("out of range") {
+                            out_of_range = true;
+                        }
+                    }
+                    if let Ok(Value::Number(n)) = parsed {
                         if n.is_f64() {
                             if let Some((neg, m, e)) = n.as_f64().and_then(f64_parts) {
                                 let t = flt_text(neg, m, e);
@@ -113,7 +123,7 @@ fn float_oracle(bytes: &[u8]) -> (Vec<String>, bool) {
             i += 1;
         }
     }
-    (args, minus_zero)
+    (args, minus_zero, out_of_range)
 }
 
 fn has_surrogate_escape(bytes: &[u8]) -> bool {
@@ -200,9 +210,13 @@ pub fn run(rep: &mut Report, ctx: &Ctx) {
                 rep.count("jsonbytes.skipped.surrogate_escape");
                 continue;
             }
-            let (oracle, minus_zero) = float_oracle(&bytes);
+            let (oracle, minus_zero, out_of_range) = float_oracle(&bytes);
             if minus_zero {
                 rep.count("jsonbytes.skipped.minus_zero");
+                continue;
+            }
+            if out_of_range {
+                rep.count("jsonbytes.skipped.number_beyond_f64_range");
                 continue;
             }
             rep.case(&format!("jsonbytes {}", hex(&bytes)), true);
